@@ -511,17 +511,17 @@ def part_polys(st):
     for n, r in enumerate(res):
         ctx.count(("poly", n), nontrivial=n >= 2)
         if "hermite" not in r:
-            st.viol(f"special-polys-crash:{n}", {"n": n, "result": r}, f"prob_hermite_poly/ce_bell_poly failed for n={n}")
+            st.viol(f"special-polys-crash:{n}", {"n": n, "result": r}, f"prob_hermite_poly/ce_bell_poly failed for n={n}", part="polys")
             continue
         got = {int(k): Fr(v) for k, v in r["hermite"].items()}
         if got != hermite_ref(n):
             st.viol(f"hermite:{n}", {"n": n, "polar": r["hermite"], "reference": {k: fs(v) for k, v in hermite_ref(n).items()}},
-                    f"prob_hermite_poly({n}, x) is not He_{n} (He_k+1 = x He_k - k He_k-1)")
+                    f"prob_hermite_poly({n}, x) is not He_{n} (He_k+1 = x He_k - k He_k-1)", part="polys")
         if n >= 1:
             gb = {tuple(int(e) for e in k.split(",")): Fr(v) for k, v in r["bell"].items()}
             if gb != bell_ref(n):
                 st.viol(f"bell:{n}", {"n": n, "polar": r["bell"], "reference": {str(k): fs(v) for k, v in bell_ref(n).items()}},
-                        f"ce_bell_poly({n}, x1..x{n}) is not the complete exponential Bell polynomial B_{n}")
+                        f"ce_bell_poly({n}, x1..x{n}) is not the complete exponential Bell polynomial B_{n}", part="polys")
         ctx.coverage["obligations"] += 1
         ctx.coverage["discharged"] += 1
 
@@ -577,7 +577,7 @@ def part_expansions(st):
         cj = [fs(c) for c in cums]
         ctx.count(("expansion", cj), nontrivial=K >= 3)
         if "gc_poly" not in r:
-            st.viol(f"gram-charlier-crash:{cj}", {"cumulants": cj, "result": r}, f"GramCharlierExpansion failed on cumulants {cj}")
+            st.viol(f"gram-charlier-crash:{cj}", {"cumulants": cj, "result": r}, f"GramCharlierExpansion failed on cumulants {cj}", part="gram-charlier")
         else:
             pol = {int(d): Fr(c) for d, c in r["gc_poly"].items()}
             g = gauss_moments(cums[0], cums[1], K + max(pol) + 1)
@@ -589,19 +589,19 @@ def part_expansions(st):
                 st.viol(f"gram-charlier:{cj}", {"cumulants": cj, "density_polynomial_factor": r["gc_poly"], "moment_order": first,
                                                 "of_density": fs(mom[first]), "from_cumulants": fs(want[first])},
                         f"Gram-Charlier density for cumulants {cj}: raw moment {first} of the density is {fs(mom[first])}, "
-                        f"the cumulants give {fs(want[first])}")
+                        f"the cumulants give {fs(want[first])}", part="gram-charlier")
             else:
                 ctx.coverage["obligations"] += 1
                 ctx.coverage["discharged"] += 1
         if 3 <= K <= 5:
             if "cf_poly" not in r:
-                st.viol(f"cornish-fisher-crash:{cj}", {"cumulants": cj, "result": r}, f"CornishFisherExpansion failed on cumulants {cj}")
+                st.viol(f"cornish-fisher-crash:{cj}", {"cumulants": cj, "result": r}, f"CornishFisherExpansion failed on cumulants {cj}", part="cornish-fisher")
             else:
                 got = {int(d): Fr(c) for d, c in r["cf_poly"].items()}
                 ref = cf_textbook(cums)
                 if got != ref:
                     st.viol(f"cornish-fisher:{cj}", {"cumulants": cj, "polar": r["cf_poly"], "textbook": {d: fs(c) for d, c in ref.items()}},
-                            f"Cornish-Fisher polynomial for cumulants {cj} differs from the textbook expansion of order {K}")
+                            f"Cornish-Fisher polynomial for cumulants {cj} differs from the textbook expansion of order {K}", part="cornish-fisher")
                 else:
                     ctx.coverage["obligations"] += 1
                     ctx.coverage["discharged"] += 1
